@@ -145,7 +145,7 @@ def run(scratch, obligations, extra_flags=(), capture_playback=False):
     return results, meta
 
 
-CHECK_RE = re.compile(r"^Check \d+: (\S+)\n\t - Status: (\w+)\n\t - Description: \"(.*)\"\n(?:\t - Location: (.*)\n)?", re.M)
+CHECK_RE = re.compile(r"^Check \d+: (.+)\n\t - Status: (\w+)\n\t - Description: \"(.*)\"\n(?:\t - Location: (.*)\n)?", re.M)
 
 
 def triage(o, full, raw, whole_out):
@@ -176,6 +176,11 @@ def triage(o, full, raw, whole_out):
                 failed_undec.append(item)
             else:
                 failed_real.append(item)
+    if not failed_real and not failed_undec and "VERIFICATION:- FAILED" in raw:
+        # fallback: the per-check list could not be parsed; use the summary lines
+        for m in re.finditer(r"^Failed Checks: (.*)\n File: (.*)$", raw, re.M):
+            item = {"check": "?", "description": m.group(1).strip(), "location": m.group(2).strip()}
+            (failed_undec if any(re.search(p, item["description"]) for p in UNDECIDED_PATTERNS) else failed_real).append(item)
     artefacts = [f for f in failed_real if any(re.search(p, f["description"]) for p in TOOL_ARTEFACT_PATTERNS)]
     if artefacts:
         r["verdict"] = "undecided"
